@@ -152,6 +152,15 @@ impl Typer
 	{
 		match value_type
 		{
+			Some(Ok(vt)) if !vt.is_wellformed() =>
+			{
+				// A type inferred from a use that makes no sense, such as
+				// an array of the values of a function that returns nothing.
+				Err(Error::IllegalType {
+					value_type: vt,
+					location: identifier.location.clone(),
+				})
+			}
 			Some(Ok(vt)) =>
 			{
 				if let Some(symbol) =
